@@ -44,7 +44,7 @@ P = {
         "name": "schema", "pkg": "./internal/rules/mechanisms", "test": "TestVerifC20Schema",
         "overlay": {"internal/rules/mechanisms/zz_verif_c20_schema_test.go": "c20/c20_schema_test.go"},
         "eval_module": "Run.Eval_C20", "check_term": "check_schema fixed_F1a fixed_F1b",
-        "n_quick": 0, "n_thorough": 0, "findings": {1: "C20-F1"}, "env": {"VERIF_C20_PROBES": PROBES},
+        "n_quick": 0, "n_thorough": 0, "findings": {1: "C20-F1c"}, "env": {"VERIF_C20_PROBES": PROBES},
         "escalate": False,
     }],
     "generators": [gen_schema_tables],
